@@ -11,6 +11,8 @@ use crate::infra::stats::Stats;
 use crate::infra::tape::Tape;
 
 const NEXT: &[u8] = b"HTTP/1.1 200 OK\r\nContent-Length: 3\r\n\r\nabcTAIL";
+/// bytes following the body in the window: a next response, a stray CRLF before one, arbitrary bytes
+const TAILS: [&[u8]; 4] = [NEXT, b"\r\nHTTP/1.1 200 OK\r\nContent-Length: 0\r\n\r\n", b"\r\n\r\n\r\n", b"\x00\xff0\r\n\r\n"];
 
 #[derive(Clone, Debug)]
 struct Case {
@@ -39,12 +41,13 @@ fn run(case: &Case, st: &mut Stats) -> Result<(), String> {
     let off = 33usize;
     let body = &pattern()[off..off + body_avail];
     let finite = matches!(case.n, Some(n) if n <= 80_000);
-    let stream_len = body_avail + if finite { NEXT.len() } else { 0 };
+    let tail: &[u8] = TAILS[(case.steps.len() + body_avail) % TAILS.len()];
+    let stream_len = body_avail + if finite { tail.len() } else { 0 };
     let byte_at = |i: usize| -> u8 {
         if i < body_avail {
             body[i]
         } else {
-            NEXT[i - body_avail]
+            tail[i - body_avail]
         }
     };
     match (case.n, r.body_mode()) {
